@@ -50,8 +50,29 @@ Fixpoint apply_rev_aux (orig : bytes) (res_ : list edit) (acc : bytes) : res byt
       end
   end.
 
-Definition apply_edits_rev (orig : bytes) (es : list edit) : res bytes :=
+(* the loop alone, on the edits in the order given *)
+Definition apply_edits_pos (orig : bytes) (es : list edit) : res bytes :=
   apply_rev_aux orig (rev es) orig.
+
+(* `ordered.sort_by_key(|r| r.2)`: stable sort by start offset *)
+Fixpoint ins_edit (e : edit) (l : list edit) : list edit :=
+  match l with
+  | [] => [e]
+  | x :: l' => if Nat.leb (e_start e) (e_start x) then e :: x :: l' else x :: ins_edit e l'
+  end.
+Definition sort_edits (es : list edit) : list edit := fold_right ins_edit [] es.
+
+(* the pre-check loop: `if *start < pos || *end < *start { return Err(..) }; pos = *end` *)
+Fixpoint ordered_from (pos : nat) (es : list edit) : bool :=
+  match es with
+  | [] => true
+  | e :: es' => Nat.leb pos (e_start e) && Nat.leb (e_start e) (e_stop e) && ordered_from (e_stop e) es'
+  end.
+
+(* apply_content_edits_with_content: sort, reject overlapping / malformed edits, then splice *)
+Definition apply_edits_rev (orig : bytes) (es : list edit) : res bytes :=
+  let s := sort_edits es in
+  if ordered_from 0 s then apply_edits_pos orig s else Mismatch.
 
 (* The reference meaning of "substitute each planned match at its recorded position":
    left to right, [pos] is how much of the original has been consumed, [rest = skipn pos orig]. *)
